@@ -238,6 +238,95 @@ def rule_D(toks, au):
                         continue
             i += 1
     # span.record(...);  statements on dropped spans are handled by recipes listing `drop_calls`
+    toks = rule_D_dead(toks, au)
+    return toks
+
+
+PURE_COND_OK = {"len", "is_empty"}
+
+
+def _pure_tokens(ts):
+    """condition made of identifiers, literals, operators and .len()/.is_empty() only"""
+    for k, t in enumerate(ts):
+        if t.kind == "p" and t.text in ("{", "}", ";", "!") and not (t.text == "!" ):
+            return False
+        if is_p(t, "(") and k > 0 and ts[k - 1].kind == "id" and ts[k - 1].text not in PURE_COND_OK:
+            return False
+        if t.kind == "id" and t.text in ("await", "return", "break", "continue", "let", "mut"):
+            return False
+    return True
+
+
+def rule_D_dead(toks, au):
+    """after logging was dropped: (1) `if COND { }` without else and with a pure COND is removed;
+    (2) a local `let mut X = <literal>;` whose only other occurrences are statements `X += E;` / `X = E;` with pure E
+    (a counter that only fed log output) is removed together with those statements."""
+    changed = True
+    while changed:
+        changed = False
+        # (1) empty ifs
+        i = 0
+        while i < len(toks):
+            if is_id(toks[i], "if") and _stmt_pos(toks[:i]) and not is_id(toks[i + 1], "let"):
+                try:
+                    j = _body_open(toks, i)
+                except IndexError:
+                    break
+                k = match_close(toks, j)
+                if k == j + 1 and not (k + 1 < len(toks) and is_id(toks[k + 1], "else")) and _pure_tokens(toks[i + 1:j]) \
+                        and not (i > 0 and is_id(toks[i - 1], "else")):
+                    au.note("D", "empty if (only logging inside): " + render(toks[i:k + 1]))
+                    del toks[i:k + 1]
+                    changed = True
+                    continue
+            i += 1
+        # (2) dead counters
+        i = 0
+        while i < len(toks):
+            if is_id(toks[i], "let") and is_id(toks[i + 1], "mut") and toks[i + 2].kind == "id" and _stmt_pos(toks[:i]):
+                name = toks[i + 2].text
+                k = i + 3
+                while not is_p(toks[k], ";"):
+                    k += 1
+                init = toks[i + 3:k]
+                itxt = [t.text for t in init]
+                if itxt and itxt[0] in ("=", ":") and all(t.kind in ("num",) or t.text in ("=", ":", "usize", "u64", "u32", "u16", "u8", "i32", "i64", "false", "true") for t in init):
+                    # find all other occurrences
+                    occ = [q for q in range(len(toks)) if toks[q].kind == "id" and toks[q].text == name and not (i <= q <= k)]
+                    stmts = []
+                    ok = bool(occ)
+                    for q in occ:
+                        if q > 0 and is_p(toks[q - 1], "."):
+                            ok = False
+                            break
+                        # must be at statement start, followed by `+=` / `=` (not `==`)
+                        if not _stmt_pos(toks[:q]):
+                            ok = False
+                            break
+                        if is_p(toks[q + 1], "+") and is_p(toks[q + 2], "="):
+                            e0 = q + 3
+                        elif is_p(toks[q + 1], "=") and not is_p(toks[q + 2], "="):
+                            e0 = q + 2
+                        else:
+                            ok = False
+                            break
+                        e1 = e0
+                        while not is_p(toks[e1], ";"):
+                            e1 += 1
+                        if not _pure_tokens(toks[e0:e1]) or any(toks[z].text == name for z in range(e0, e1)):
+                            ok = False
+                            break
+                        stmts.append((q, e1))
+                    if ok:
+                        for (a, b) in sorted(stmts, reverse=True):
+                            au.note("D", "dead counter update: " + render(toks[a:b + 1]))
+                            del toks[a:b + 1]
+                        # declaration index unchanged if all stmts are after it
+                        au.note("D", "dead counter: " + render(toks[i:k + 1]))
+                        del toks[i:k + 1]
+                        changed = True
+                        continue
+            i += 1
     return toks
 
 
@@ -388,8 +477,40 @@ def rule_R(toks, au, opts=None):
         i += 1
     toks = out
     toks = rule_letchain(toks, au)
+    toks = rule_whilelet(toks, au)
     toks = rule_drain(toks, au)
     toks = rule_for(toks, au, opts.get("for", "auto"))
+    return toks
+
+
+def rule_whilelet(toks, au):
+    """while let P = E { B }  ->  loop { match E { P => { B } _ => { break; } } }"""
+    i = 0
+    while i < len(toks):
+        if is_id(toks[i], "while") and is_id(toks[i + 1], "let") and _stmt_pos(toks[:i]):
+            j = _body_open(toks, i)
+            hdr = toks[i + 2:j]
+            k = 0
+            depth = 0
+            while not (is_p(hdr[k], "=") and depth == 0 and not is_p(hdr[k + 1], "=")):
+                if hdr[k].kind == "p" and hdr[k].text in OPEN:
+                    depth += 1
+                elif hdr[k].kind == "p" and hdr[k].text in CLOSE:
+                    depth -= 1
+                k += 1
+            pat, ex = hdr[:k], hdr[k + 1:]
+            close = match_close(toks, j)
+            au.note("R", "while let P = E -> loop { match E { P => .., _ => break } }")
+            ws = toks[i].ws
+            head = [Tok("id", "loop", ws), Tok("p", "{", " "), Tok("id", "match", " ")] + [_w(x, " " if q == 0 else x.ws) for q, x in enumerate(ex)] + \
+                   [Tok("p", "{", " ")] + [_w(x, " " if q == 0 else x.ws) for q, x in enumerate(pat)] + [Tok("p", "=", " "), Tok("p", ">", "")]
+            tail = [Tok("id", "_", " "), Tok("p", "=", " "), Tok("p", ">", ""), Tok("p", "{", " "), Tok("id", "break", " "), Tok("p", ";", ""),
+                    Tok("p", "}", " "), Tok("p", "}", " "), Tok("p", "}", " ")]
+            body = [_w(toks[j], " ")] + toks[j + 1:close + 1]
+            toks[i:close + 1] = head + body + tail
+            i += len(head)
+            continue
+        i += 1
     return toks
 
 
